@@ -531,7 +531,7 @@ fn jit_ops(j: &JitSpec) -> Vec<String> {
     let mut v = vec![format!("file jit {}", j.machine)];
     for it in &j.items {
         match it {
-            JitItem::Rec { namelen, code } => v.push(format!("rec {namelen} {}", hex(code))),
+            JitItem::Rec { namelen, code } => v.push(format!("rec {namelen} {}", if code.is_empty() { "-".to_string() } else { hex(code) })),
             JitItem::Skip { kind, len } => v.push(format!("skip {kind} {len}")),
         }
     }
@@ -548,7 +548,7 @@ fn jit_from_ops(ops: &[String]) -> Option<JitSpec> {
                 j.machine = m.parse().ok()?;
                 seen = true;
             }
-            ["rec", n, h] => j.items.push(JitItem::Rec { namelen: n.parse().ok()?, code: unhex(h) }),
+            ["rec", n, h] => j.items.push(JitItem::Rec { namelen: n.parse().ok()?, code: if *h == "-" { Vec::new() } else { unhex(h) } }),
             ["skip", k, n] => j.items.push(JitItem::Skip { kind: k.parse().ok()?, len: n.parse().ok()? }),
             _ => {}
         }
@@ -988,6 +988,12 @@ fn gen_jit(rng: &mut Rng) -> Vec<String> {
         if code.is_empty() {
             code.push(0x90);
         }
+        if rng.chance(1, 6) {
+            // zero-length code records: several index entries with the same relative address
+            for _ in 0..rng.range(1, 3) {
+                items.push(JitItem::Rec { namelen: rng.range(1, 9) as usize, code: Vec::new() });
+            }
+        }
         items.push(JitItem::Rec { namelen: rng.range(1, 30) as usize, code });
     }
     if rng.chance(1, 3) {
@@ -996,7 +1002,8 @@ fn gen_jit(rng: &mut Rng) -> Vec<String> {
     let spec = JitSpec { machine, items };
     let Some(bin) = build_jit(&spec) else { return vec!["note jit-build-failed".into()] };
     let recs = bin.jit.clone().unwrap_or_default();
-    let r = rng.pick(&recs[..]).clone();
+    let nonempty: Vec<JitRec> = recs.iter().filter(|r| !r.code.is_empty()).cloned().collect();
+    let r = rng.pick(&nonempty[..]).clone();
     let len = r.code.len() as u64;
     let (start, kind): (u64, &str) = match rng.below(8) {
         0..=1 => (r.rel as u64, "jit-rec-start"),
@@ -1011,7 +1018,7 @@ fn gen_jit(rng: &mut Rng) -> Vec<String> {
     let cont = rng.chance(1, 2);
     let mut pre = Vec::new();
     if rng.chance(1, 4) {
-        let q = rng.pick(&recs[..]);
+        let q = rng.pick(&nonempty[..]);
         pre.push((q.rel + rng.below(q.code.len() as u64) as u32, rng.range(0, 32) as u32, rng.chance(1, 2)));
     }
     build_case_pre(&bin, &format!("{kind} {skind}"), &pre, u32c(start), size, cont)
@@ -1322,6 +1329,8 @@ impl Prop for C20 {
                 items: vec![
                     JitItem::Skip { kind: 2, len: 24 },
                     JitItem::Rec { namelen: 3, code: a },
+                    JitItem::Rec { namelen: 5, code: Vec::new() },
+                    JitItem::Rec { namelen: 6, code: Vec::new() },
                     JitItem::Rec { namelen: 17, code: b },
                     JitItem::Skip { kind: 1, len: 8 },
                     JitItem::Rec { namelen: 1, code: c },
